@@ -89,8 +89,11 @@ class Kernel:
         self.cap_hit = False
         self.hung = False
         self.hang_limit = None
+        self.engine = frozenset()
+        self.n_engine = 0
         self.lib_scope = None
         self.site_counts = None
+        self.abort_at = None
         self.now = 0.0  # simulated seconds (used only for waits with timeouts / sleep)
         self.counters = {"lib_threads_started": 0, "deadlocks": 0, "timeouts_fired_early": 0, "timeouts_by_idle": 0,
                          "blocks": 0, "lock_contention": 0, "unsimulated_concurrency": 0}
@@ -108,7 +111,7 @@ class Kernel:
         self.by_ident[_thread.get_ident()] = t
         return t
 
-    def begin_run(self, policy, scope, step_cap=None, fault_seed=0, timeout_fire_p=0.0, hang_limit=None, lib_scope=None):
+    def begin_run(self, policy, scope, step_cap=None, fault_seed=0, timeout_fire_p=0.0, hang_limit=None, lib_scope=None, engine=None):
         """Start a recorded run (one op).  Tasks from earlier runs are dropped
         if finished."""
         self.tasks = [t for t in self.tasks if not t.done or t.is_main]
@@ -125,10 +128,15 @@ class Kernel:
         self.step_cap = step_cap
         self.cap_hit = False
         self.hung = False
+        # the hang guard counts line events in the engine files only: their number is proportional to the
+        # number of hits, whatever the pre-emption scope, so one limit fits every scope
         self.hang_limit = hang_limit
+        self.engine = frozenset(engine) if engine else frozenset()
+        self.n_engine = 0
         self.lib_scope = frozenset(lib_scope) if lib_scope else None
         self.site_counts = None
-
+        self.abort_at = None  # (step, exception class): fault injected into whichever task executes that step
+        
     def current(self):
         return self.by_ident.get(_thread.get_ident())
 
@@ -170,13 +178,19 @@ class Kernel:
     def preempt_point(self, task, frame):
         self.n += 1
         task.steps += 1
+        if self.abort_at is not None and self.n >= self.abort_at[0]:
+            exc = self.abort_at[1]
+            self.abort_at = None
+            raise exc()
         if self.site_counts is not None:
             k = (frame.f_code.co_filename, frame.f_lineno)
             self.site_counts[k] = self.site_counts.get(k, 0) + 1
-        if self.hang_limit is not None and self.n > self.hang_limit:
-            # cut this task off; any other task still looping gets the same treatment a little later
-            self.hang_limit = self.n + 200_000
-            raise StepLimitExceeded(f"more than {self.n - 1} traced steps")
+        if frame.f_code.co_filename in self.engine:
+            self.n_engine += 1
+            if self.hang_limit is not None and self.n_engine > self.hang_limit:
+                # cut this task off; any other task still looping gets the same treatment a little later
+                self.hang_limit = self.n_engine + 200_000
+                raise StepLimitExceeded(f"more than {self.n_engine - 1} engine steps")
         if self.cap_hit:
             return
         if self.step_cap is not None and self.n > self.step_cap:
@@ -335,8 +349,6 @@ class Kernel:
         # from now on the spawning task needs pre-emption points in the library scope too
         if self.lib_scope is not None and not self.lib_scope <= self.scope:
             self.scope = self.scope | self.lib_scope
-            if self.hang_limit is not None:
-                self.hang_limit = max(self.hang_limit * 8, 40_000_000)  # the wider scope counts many more lines
         cur = self.current()
         if cur is not None:
             self.trace_current(cur)
